@@ -10,6 +10,29 @@ import (
 // ---------------------------------------------------------------------------
 // syntactic helpers over a sub-case
 
+// nestedDefaultRx finds a default-family expansion nested in a word:
+// ${u:-  ${t+  ${a[1]:=  ...
+var nestedDefaultRx = regexp.MustCompile(`\$\{[a-zA-Z0-9_@*]+(\[[^\]]*\])?:?[-+=?]`)
+
+// nestedDefaultWord reports whether text (a pattern, replacement, default
+// word or slice expression of the expansion under test) holds a nested
+// default-family expansion whose word satisfies pred. The word is taken to
+// run to the end of text: conservative, the class only grows.
+func nestedDefaultWord(text string, pred func(string) bool) bool {
+	for _, loc := range nestedDefaultRx.FindAllStringIndex(text, -1) {
+		if pred(text[loc[1]:]) {
+			return true
+		}
+	}
+	return false
+}
+
+func wordQuotingMatters(w string) bool {
+	return strings.ContainsAny(w, `'"`) || strings.Contains(w, "@") || strings.Contains(w, "$*") || strings.Contains(w, "[*]")
+}
+
+var nestedRemoveRx = regexp.MustCompile(`\$\{[a-zA-Z0-9_@*]+(\[[^\]]*\])?(#|%|\^|,)`)
+
 var nestedSuffixRx = regexp.MustCompile(`\$\{([a-z]+)%[^%]`)
 
 func (e Exp) isPositionalList() bool { return !e.HasIdx && (e.Name == "@" || e.Name == "*") }
@@ -205,6 +228,10 @@ var findings = []finding{
 	// replacement of ${v/p/r}) keeps the backslash of an unquoted `\c`.
 	{"C21-literal-backslash-kept", func(s Sub) bool {
 		e := s.Exp
+		hasBackslash := func(w string) bool { return strings.Contains(w, `\`) }
+		if nestedDefaultWord(e.Arg, hasBackslash) || nestedDefaultWord(e.Arg2, hasBackslash) {
+			return true
+		}
 		if defaultFam(e.Fam) || (e.Fam == "indirect" && e.Op != "" && !strings.ContainsAny(e.Op, "#%:")) {
 			return strings.Contains(e.Arg, `\`)
 		}
@@ -219,19 +246,50 @@ var findings = []finding{
 	// that bash keeps literally.
 	{"C21-default-word-quoting-lost", func(s Sub) bool {
 		e := s.Exp
+		// the same defect reached through nesting: a default-family
+		// expansion inside any word of the expansion (replacement string,
+		// pattern, slice expression), e.g. ${v/x/"${u:-'q r'}"}
+		if nestedDefaultWord(e.Arg, wordQuotingMatters) || nestedDefaultWord(e.Arg2, wordQuotingMatters) {
+			return true
+		}
 		if !(defaultFam(e.Fam) || (e.Fam == "indirect" && e.Op != "" && !strings.ContainsAny(e.Op, "#%:"))) {
 			return false
 		}
 		// a list expansion inside the word ("${u:-${a[@]}}") keeps its
 		// one-field-per-element nature in bash; flattened here as well.
-		return strings.ContainsAny(e.Arg, `'"`) || strings.Contains(e.Arg, "@") || strings.Contains(e.Arg, "$*") || strings.Contains(e.Arg, "[*]")
+		return wordQuotingMatters(e.Arg)
 	}},
 	// ${v#"?"} ${v%'*'} ${v^^"$g"}: the pattern of # ## % %% ^ ^^ , ,, is
 	// expanded with expand.Literal, so quoted pattern characters stay active.
 	{"C21-pattern-quoting-lost", func(s Sub) bool {
 		e := s.Exp
+		// nested: ${u:-${t%"?"}} - a # % ^ , operator inside a word whose
+		// remaining text holds a quote
+		for _, w := range []string{e.Arg, e.Arg2} {
+			for _, loc := range nestedRemoveRx.FindAllStringIndex(w, -1) {
+				if strings.ContainsAny(w[loc[1]:], `'"`) {
+					return true
+				}
+			}
+		}
 		if e.Fam == "remove" || e.Fam == "case" {
 			return strings.ContainsAny(e.Arg, `'"`)
+		}
+		return false
+	}},
+	// ${v//['[a]'x]/} : a quoted [ or ] inside a bracket expression of a
+	// replacement pattern. expand.Pattern escapes it (\[a\]) and
+	// pattern.Regexp then rejects the bracket expression, so nothing matches
+	// (root cause in package pattern, C17/C18's domain).
+	{"C21-quoted-bracket-in-bracket", func(s Sub) bool {
+		e := s.Exp
+		if e.Fam != "replace" {
+			return false
+		}
+		for _, q := range []string{`'[`, `"[`, `]'`, `]"`} {
+			if i := strings.Index(e.Arg, q); i > 0 && strings.Contains(e.Arg[:i], "[") {
+				return true
+			}
 		}
 		return false
 	}},
@@ -455,6 +513,11 @@ func outOfDomain(s Sub) string {
 				return "nonws-ifs-empty-element"
 			}
 		}
+	}
+	if e.Fam == "replace" && (strings.Contains(e.Arg2, "@") || strings.Contains(e.Arg2, "[*]") || strings.Contains(e.Arg2, "$*")) {
+		// bash 5.2.15 leaks \x7f for an empty element of "${a[@]}" inside a
+		// replacement string
+		return "list-in-replacement"
 	}
 	if e.Fam == "replace" && e.Arg == "" && e.HasAr2 {
 		// ${v///} cannot express an empty pattern: bash reads it as
